@@ -71,14 +71,26 @@ def rule_destroy(ctx, rep):
                 continue
             callers = 0
             ok = True
+            from . import c03
+
+            G = c03.Gates(F)
             for b2 in F.body_list:
+                acq_edges = None
                 for p in A.paths.get(b2["key"], []):
                     for e in p.events:
                         if e["kind"] == "CALL" and isinstance(e["detail"], dict) and e["detail"].get("callee") == key and e["detail"].get("outcome") is None:
                             callers += 1
                             if vget(e["vec"], "free_raw"):
+                                # shape S3: the owner observed `count == 1` through an acquire load on this path (no decrement needed)
+                                if acq_edges is None:
+                                    acq_edges = [(x, y) for (x, y, roots, o) in c03.gate_edges_with_order(F, G, cfg.Body(b2)) if 1 in roots]  # the ordering of that observation is C02's concern (R-ORD-2), not a lifetime matter
+                                blocks = list(p.blocks)
+                                upto = blocks.index(e["bb"]) if e["bb"] in blocks else len(blocks)
+                                passed = any(blocks[i] == x and blocks[i + 1] == y for i in range(min(upto, len(blocks) - 1)) for (x, y) in acq_edges)
+                                if passed and not vget(p.vec, "dec"):
+                                    continue
                                 ok = False
-                                rep.bad("R-DESTROY", ik, balance.path_report(F, b2, p, "the freeing helper %s is called on a path with no preceding decrement of the count word" % key), F.loc(b2, e["span"]), tag)
+                                rep.bad("R-DESTROY", ik, balance.path_report(F, b2, p, "the freeing helper %s is called on a path with neither a preceding decrement of the count word that observed 1 nor an observation `count == 1` by the owner" % key), F.loc(b2, e["span"]), tag)
             if callers == 0:
                 rep.bad("R-DESTROY", ik, "freeing helper %s has no caller: cannot establish shape S1" % key, F.loc(b), tag)
             elif ok:
